@@ -19,7 +19,8 @@ CONSTANTS N,           \* frames the sender hands to the link
           CloseAfter,  \* consecutive bad frames after which the reader closes (100 in the code)
           MaxFaults
 
-Ops == {"flip-hdr", "flip-body", "flip-mac", "flip-len", "truncate", "dup", "swap", "drop", "garbage-framed", "garbage-raw"}
+Ops == {"flip-hdr", "flip-body", "flip-mac", "flip-len", "truncate", "dup", "swap", "drop", "garbage-framed", "garbage-raw", "replay-late"}
+  \* replay-late: a copy of a frame is put on the wire again behind everything that is on the wire now
 Breaks(op) == op \in {"flip-len", "truncate", "garbage-raw"}
 
 VARIABLES wire,      \* sequence of units still to be read: [id, intact, breaks]   (id 0 = garbage)
@@ -50,15 +51,17 @@ Send == /\ next <= N /\ ~closed
 Fault(op, p) ==
   /\ faults < MaxFaults /\ p \in 1..Len(wire) /\ wire[p].intact
   /\ (op = "swap" => p < Len(wire) /\ wire[p + 1].intact)
+  /\ (op = "replay-late" => p < Len(wire) /\ wire[Len(wire)].id # 0)
   /\ wire' = CASE op \in {"flip-hdr", "flip-body", "flip-mac"} -> [wire EXCEPT ![p].intact = FALSE]
                [] op \in {"flip-len", "truncate"} -> [wire EXCEPT ![p].intact = FALSE, ![p].breaks = TRUE]
                [] op = "dup" -> SubSeq(wire, 1, p) \o <<wire[p]>> \o SubSeq(wire, p + 1, Len(wire))
                [] op = "swap" -> [wire EXCEPT ![p] = wire[p + 1], ![p + 1] = wire[p]]
+               [] op = "replay-late" -> Append(wire, wire[p])
                [] op = "drop" -> SubSeq(wire, 1, p - 1) \o SubSeq(wire, p + 1, Len(wire))
                [] op = "garbage-framed" -> SubSeq(wire, 1, p - 1) \o <<Garbage(FALSE)>> \o SubSeq(wire, p, Len(wire))
                [] op = "garbage-raw" -> SubSeq(wire, 1, p - 1) \o <<Garbage(TRUE)>> \o SubSeq(wire, p, Len(wire))
   /\ faults' = faults + 1
-  /\ act' = [name |-> "fault", op |-> op, at |-> wire[p].id]
+  /\ act' = [name |-> "fault", op |-> op, at |-> wire[p].id, after |-> IF op = "replay-late" THEN wire[Len(wire)].id ELSE 0]
   /\ UNCHANGED <<next, insync, errs, closed, highest, bitmap, delivered>>
 
 WinOK(s) == s > highest \/ (s < highest /\ highest - s <= W /\ (highest - s) \notin bitmap)
